@@ -76,3 +76,51 @@ static OrcCompiler *mk_compiler(void) { OrcCompiler *c = malloc(sizeof(*c)); __C
 char g_vname[8];
 void h_new_temporary(void) { OrcCompiler *c = mk_compiler(); orc_compiler_new_temporary(c, nondet_int()); REACH(); }
 void h_dup_temporary(void) { OrcCompiler *c = mk_compiler(); int v = nondet_int(); __CPROVER_assume(v >= 0 && v < ORC_N_COMPILER_VARIABLES); g_vname[7] = 0; c->vars[v].name = g_vname; orc_compiler_dup_temporary(c, v, nondet_int()); REACH(); }
+
+/* the same contract in assume(requires)/assert(ensures) form (dfcc form undecided at 50 min; DESIGN.md 7.2 fact 13) */
+void hp_allocate_register(void) {
+  OrcCompiler *c = malloc(sizeof(*c)); OrcTarget *t = malloc(sizeof(*t)); __CPROVER_assume(c && t);
+  c->target = t; c->error_msg = NULL;
+  int data_reg = nondet_int();
+  g_r = nondet_int(); g_rand_calls = 0; _orc_compiler_flag_randomize = 0;
+  __CPROVER_assume(t->data_register_offset >= ORC_GP_REG_BASE && t->data_register_offset <= 64);
+  __CPROVER_assume(g_r >= 0 && g_r < ORC_N_REGS && c->alloc_regs[g_r] >= 0 && c->alloc_regs[g_r] < 1000);
+  int expected = spec_alloc(c, data_reg);
+  int old_alloc = c->alloc_regs[g_r], old_used = c->used_regs[g_r];
+  int r = orc_compiler_allocate_register(c, data_reg);
+  __CPROVER_assert(r == expected, "postcondition: the register is the spec function of the register tables");
+  __CPROVER_assert(r >= 0 && r < ORC_N_REGS, "postcondition: a register number or 0");
+  __CPROVER_assert(!(r != 0 && g_r == r) || (c->used_regs[g_r] == 1 && c->alloc_regs[g_r] == old_alloc + 1 && c->valid_regs[g_r]), "postcondition: the allocated register is marked used and counted once");
+  __CPROVER_assert(g_r == r || (c->alloc_regs[g_r] == old_alloc && c->used_regs[g_r] == old_used), "postcondition: other registers' bookkeeping untouched");
+  __CPROVER_assert(g_rand_calls == 0, "postcondition: no randomness without ORC_CODE=randomize");
+  REACH();
+}
+
+/* ================================================================ C17: the register of a pooled constant is a function of
+ * the compiler state alone.  Checked with ALL static storage nondeterministic (goto-instrument --nondet-static): whatever
+ * earlier compiles left behind in static variables must not influence the answer. */
+static int spec_const_reg (const OrcCompiler *c) {
+  int top = c->max_used_temp_reg < c->min_temp_reg ? c->min_temp_reg : c->max_used_temp_reg;
+  for (int r = top; r < ORC_VEC_REG_BASE + 32; r++) {
+    if (!c->valid_regs[r]) continue;
+    int busy = (r >= ORC_VEC_REG_BASE && r <= top);
+    for (int j = 0; j < ORC_N_COMPILER_VARIABLES; j++)
+      if (c->vars[j].alloc == r && c->vars[j].alloc != 0 && (c->vars[j].first_use == -1 || c->vars[j].last_use != -1)) busy = 1;
+    for (int j = 0; j < ORC_N_CONSTANTS; j++)
+      if (j < c->n_constants && c->constants[j].alloc_reg == r && r != 0) busy = 1;
+    if (!busy) return r;
+  }
+  return 0;
+}
+void hp_get_constant_reg(void) {
+  OrcCompiler *c = malloc(sizeof(*c)); __CPROVER_assume(c != NULL);
+  __CPROVER_assume(c->n_constants >= 0 && c->n_constants <= ORC_N_CONSTANTS);
+  __CPROVER_assume(c->max_used_temp_reg >= ORC_VEC_REG_BASE && c->max_used_temp_reg < ORC_VEC_REG_BASE + 32);
+  __CPROVER_assume(c->min_temp_reg >= ORC_VEC_REG_BASE && c->min_temp_reg < ORC_VEC_REG_BASE + 32);
+  for (int j = 0; j < ORC_N_COMPILER_VARIABLES; j++) __CPROVER_assume(c->vars[j].alloc >= 0 && c->vars[j].alloc < ORC_N_REGS);
+  for (int j = 0; j < ORC_N_CONSTANTS; j++) __CPROVER_assume(c->constants[j].alloc_reg >= 0 && c->constants[j].alloc_reg < ORC_N_REGS);
+  int expected = spec_const_reg(c);
+  int r = orc_compiler_get_constant_reg(c);
+  __CPROVER_assert(r == expected, "postcondition: the constant register is the spec function of the compiler state (no hidden static state)");
+  REACH();
+}
